@@ -50,6 +50,8 @@ structure World (V : Type) where
   ext : String → List (OVal V) → M V (OVal V)
   /-- `getattr(C, name)` for a class known by number; `none` = no such attribute -/
   clsAttr : Nat → String → Option (OVal V)
+  /-- `issubclass(C, (names…))` for a class value -/
+  issubclass : OVal V → List String → M V Bool := fun _ _ => throw (.unmodelled "issubclass")
 
 variable {V : Type}
 
@@ -289,6 +291,13 @@ def iter : OVal V → M V (List (OVal V))
   | .val _ => throw (.unmodelled "iteration over an abstract value")
   | _ => throw .typeError
 
+def enumFrom (i : Nat) : List (OVal V) → List (OVal V)
+  | [] => []
+  | x :: xs => .seq .tuple [.int i, x] :: enumFrom (i + 1) xs
+
+/-- `enumerate(x)`: the pairs `(index, item)` -/
+def enumerate (x : OVal V) : M V (List (OVal V)) := do pure (enumFrom 0 (← iter x))
+
 /-- `list(x)` -/
 def toList (x : OVal V) : M V (OVal V) := do pure (.seq .list (← iter x))
 
@@ -398,6 +407,16 @@ def Exc.isA (e : Exc V) (classes : List String) : Bool :=
   | .raised (.obj c _) => classes.contains c || classes.contains "Exception"
   | .raised _ => false
   | .unmodelled _ => false
+
+/-- the caught exception as an object (`except Exception as e: … origin_exc=e`) -/
+def Exc.toVal : Exc V → OVal V
+  | .raised e => e
+  | .typeError => .obj "TypeError" []
+  | .valueError => .obj "ValueError" []
+  | .attributeError n => .obj "AttributeError" [("name", .str n)]
+  | .keyError => .obj "KeyError" []
+  | .indexError => .obj "IndexError" []
+  | .unmodelled why => .obj "<unmodelled>" [("why", .str why)]
 
 /-- `try: body  except (A, B): handler` -/
 def tryExcept {α : Type} (classes : List String) (body : M V α) (handler : Exc V → M V α) : M V α :=
